@@ -376,10 +376,26 @@ pub fn gen_tx(rng: &mut Rng, w: &World) -> TxSpec {
         ctx.callees = w.contracts.clone();
         ctx.addr_pool = w.universe.clone();
         ctx.guard_pct = 0;
-        let (n1, n2) = (rng.below(4) as usize, rng.below(4) as usize);
-        let runtime = gen_program(rng, &ctx, n1, 3);
-        let prologue = gen_program(rng, &ctx, n2, 3);
-        wrap_initcode(&prologue, &runtime)
+        if spec == SpecId::OSAKA && rng.bool() {
+            // EOF create transaction: a generated init container (sometimes with one byte
+            // damaged, which must fail cleanly), optionally followed by constructor data
+            let n = rng.below(5) as usize;
+            let mut c = gen_eof_init_program(rng, &ctx, n).to_vec();
+            if rng.chance(1, 6) {
+                let i = rng.below(c.len() as u64) as usize;
+                c[i] = rng.below(256) as u8;
+            }
+            if rng.chance(1, 3) {
+                let extra = rng.below(9) as usize;
+                c.extend(rng.bytes(extra));
+            }
+            Bytes::from(c)
+        } else {
+            let (n1, n2) = (rng.below(4) as usize, rng.below(4) as usize);
+            let runtime = gen_program(rng, &ctx, n1, 3);
+            let prologue = gen_program(rng, &ctx, n2, 3);
+            wrap_initcode(&prologue, &runtime)
+        }
     } else {
         let n = rng.below(24) as usize;
         Bytes::from((0..n).map(|_| if rng.chance(3, 4) { rng.range(1, 255) as u8 } else { 0 }).collect::<Vec<u8>>())
